@@ -205,6 +205,7 @@ def history_part(ctx):
     rep = ctx.report
     rng = ctx.rng('history')
     pending = []
+    unstream_pending = []
     for h in range(ctx.n(40, 400)):
         base = os.path.join(ctx.scratch, 'h%d' % h)
         n_cp = rng.randint(1, 3)
@@ -286,11 +287,30 @@ def history_part(ctx):
                 links += [['cp', c], ['step', c + 1]]
             pending.append(({'hist': hist_case, 'run': j, 'present': present},
                             {'op': 'plan', 'links': links, 'present': present}, sorted(executed)))
+            # the reader against the model's reader, on the file the last checkpoint just wrote (or kept)
+            last_file = os.path.join(base, 'cp%d' % (n_cp - 1), 'stream.ndjson')
+            if os.path.exists(last_file):
+                with open(last_file, encoding='utf-8') as f:
+                    lines = f.read().split('\n')
+                if lines and lines[-1] == '':
+                    lines = lines[:-1]
+                try:
+                    with quiet():
+                        back = Flow(DF.unstream(last_file)).results(on_error=None)[0]
+                    real_groups = [[canon.norm_row(canon.enc_row(r)) for r in rs] for rs in back]
+                except Exception as e:  # noqa
+                    real_groups = {'err': type(e).__name__}
+                unstream_pending.append(({'hist': hist_case, 'run': j, 'file_lines': len(lines)},
+                                         {'op': 'unstream', 'lines': lines, 'nres': nres}, real_groups))
         shutil.rmtree(base, ignore_errors=True)
     if ctx.model.available():
         outs = ctx.model.run([op for _, op, _ in pending])
         for (case, op, executed), mo in zip(pending, outs):
             rep.corr('plan', case, executed, sorted(a[1] for a in mo['actions'] if a[0] == 'exec'))
+        outs = ctx.model.run([op for _, op, _ in unstream_pending])
+        for (case, op, real_groups), mo in zip(unstream_pending, outs):
+            model_groups = [[canon.norm_row(canon.enc_row(ejson.loads(ln))) for ln in grp] for grp in mo.get('resources', [])]
+            rep.corr('unstream', case, real_groups, model_groups)
 
 
 def probe(finding):
